@@ -259,11 +259,20 @@ def _quantify(interp, gen, kind):
     si = sym_iter(it)
     if si is None:
         return ("concrete", it)
+    from .interp import SRange
+
     j = z3.Int(sym.fresh_name("q"))
     sub = Env({}, env)
-    rng = z3.And(0 <= j, j < si.n)
+    if isinstance(it, SRange) and it.step == 1:
+        # quantify over the index value itself (start <= j < stop): keeps `a[j]` free of arithmetic, so that the
+        # solver's pattern-based instantiation can match any ground index term
+        rng = z3.And(sym.as_int_term(it.start) <= j, j < sym.as_int_term(it.stop))
+        item = SInt(j)
+    else:
+        rng = z3.And(0 <= j, j < si.n)
+        item = None
     with interp.scope(rng):
-        interp.bind_target(g.target, si.getter(SInt(j)), sub)
+        interp.bind_target(g.target, item if item is not None else si.getter(SInt(j)), sub)
         conds = [rng]
         for c in g.ifs:
             with interp.scope(z3.And(*conds)):
@@ -295,6 +304,10 @@ def _mk_all_any(kind):
             for bound, member, v in x.parts:
                 body = interp._as_term(interp.truth_term(v))
                 ts.append(z3.ForAll([bound], z3.Implies(member, body)) if kind == "all" else z3.Exists([bound], z3.And(member, body)))
+            for sc in x.scalars:
+                ts.append(interp._as_term(interp.truth_term(sc)))
+            if not ts:
+                return kind == "all"
             return wrap(z3.And(*ts) if kind == "all" else z3.Or(*ts))
         if isinstance(x, LazyGen):
             r = _quantify(interp, x, kind)
@@ -355,45 +368,50 @@ def _mk_minmax(is_max):
 
         if "key" in kwargs:
             return NotImplemented
-        if len(args) == 1:
-            x = args[0]
-            parts = None
-            if isinstance(x, SGen):
-                parts = x.parts
-            elif isinstance(x, (list, tuple)) and any(isinstance(p, SGen) for p in x):
-                parts = []
-                for p in x:
-                    if not isinstance(p, SGen):
-                        raise OutOfReach("max over mixed chain")
-                    parts.extend(p.parts)
-            if parts is not None:
-                return _extremum_over_sets(interp, parts, kwargs, is_max)
+        # flatten: max(a, *bag) arrives as args containing SGen items; max([..]) / max(gen) as a single iterable
+        items = list(args)
+        if len(items) == 1:
+            x = items[0]
             if isinstance(x, LazyGen):
                 x = list(x)
-            if isinstance(x, (list, tuple)) and sym.contains_sym(x):
-                if not x:
-                    if "default" in kwargs:
-                        return kwargs["default"]
-                    raise ValueError("max() of empty sequence")
-                r = x[0]
-                for v in x[1:]:
-                    r = _scalar_max(interp, r, v, is_max)
-                return r
             if isinstance(x, (SSeq, SList)):
                 raise OutOfReach("max over symbolic-length sequence")
-            return NotImplemented
-        if sym.contains_sym(args):
-            r = args[0]
-            for v in args[1:]:
-                r = _scalar_max(interp, r, v, is_max)
-            return r
-        return NotImplemented
+            if isinstance(x, SGen):
+                items = [x]
+            elif isinstance(x, (list, tuple)):
+                if not sym.contains_sym(x):
+                    return NotImplemented
+                items = list(x)
+            else:
+                return NotImplemented
+            single_iterable = True
+        else:
+            single_iterable = False
+            if not sym.contains_sym(items):
+                return NotImplemented
+        parts, scalars = [], []
+        for it in items:
+            if isinstance(it, SGen):
+                parts.extend(it.parts)
+                scalars.extend(it.scalars)
+            else:
+                scalars.append(it)
+        if parts:
+            return _extremum_over_sets(interp, parts, scalars, kwargs, is_max)
+        if not scalars:
+            if "default" in kwargs:
+                return kwargs["default"]
+            raise ValueError("max() of empty sequence")
+        r = scalars[0]
+        for v in scalars[1:]:
+            r = _scalar_max(interp, r, v, is_max)
+        return r
 
     return m
 
 
-def _extremum_over_sets(interp, parts, kwargs, is_max):
-    """m = max{ v(x) | x in S_i, cond } over finitely many symbolic sets; fresh m + defining axioms."""
+def _extremum_over_sets(interp, parts, scalars, kwargs, is_max):
+    """m = max( { v(x) | member(x) } for each part  ∪  scalars ); fresh m + its defining axioms."""
     p = paths.current()
     m = sym.fresh_int("max" if is_max else "min")
     bounds, witnesses, nonempty = [], [], []
@@ -402,17 +420,24 @@ def _extremum_over_sets(interp, parts, kwargs, is_max):
         bounds.append(z3.ForAll([bound], z3.Implies(member, (vt <= m.e) if is_max else (vt >= m.e))))
         witnesses.append(z3.Exists([bound], z3.And(member, vt == m.e)))
         nonempty.append(z3.Exists([bound], member))
+    for sc in scalars:
+        st = sym.as_int_term(sc)
+        bounds.append((st <= m.e) if is_max else (st >= m.e))
+        witnesses.append(st == m.e)
+    p.quantified = True
+    if scalars:
+        p.assume(z3.And(*bounds))
+        p.assume(z3.Or(*witnesses))
+        return m
     any_elem = z3.Or(*nonempty)
     if "default" not in kwargs:
         p.require(any_elem, "safe.max-nonempty", exc="ValueError")
         p.assume(z3.And(*bounds))
         p.assume(z3.Or(*witnesses))
-        p.quantified = True
         return m
     d = sym.as_int_term(kwargs["default"])
     p.assume(z3.Implies(any_elem, z3.And(z3.And(*bounds), z3.Or(*witnesses))))
     p.assume(z3.Implies(z3.Not(any_elem), m.e == d))
-    p.quantified = True
     return m
 
 
